@@ -221,6 +221,8 @@ class DeviceSim(object):
         auth = self.cfg.get("auth") or {"mode": "none"}
         self.host_maxdata = p.arg1
         self.host_cnxn = p
+        if self.cfg.get("mute"):
+            return              # the device never answers
         if auth.get("mode", "none") == "none":
             self._send_cnxn()
         else:
